@@ -22,7 +22,8 @@ RULE = ('case = (library, ordered mapping descriptor->count, T).  Libraries: the
         'the real constructors (Fraction reference values, no Cp table: exact comparison).  Mappings: the unit vector of EVERY group of '
         'every shipped library, random sparse (1-4) and dense (5-40 / all groups) mappings with integer, fractional, zero and negative '
         'counts, keys given as str or as Group/Descriptor objects, mappings with descriptors that have no data (unknown names, entries '
-        'without the property set), the empty mapping, an unregistered property-set name.  T: ends of the common range, heat-capacity '
+        'without the property set), the empty mapping, an unregistered property-set name; small libraries (built by the constructors and '
+        'loaded from YAML) in which reference values are NaN or +-inf, against the IEEE sum in mapping order.  T: ends of the common range, heat-capacity '
         'knots, random interior points, points just outside.  A case is non-trivial when the mapping has >= 2 descriptors, a '
         'non-unit count or a descriptor without data; distinct = distinct (library, sorted names+counts, T).')
 ASSUMPTIONS = ['the values a constituent correlation returns at T (get_CpoR/get_HoRT/get_SoR of the per-group objects) are data of the '
@@ -185,6 +186,157 @@ def relational_checks(ctx, c, got, scale):
                 ctx.violation('%s is not additive over a split of the mapping' % p, dict(c.input, cut=cut), got[p], tot)
 
 
+# ---------------------------------------------------------------------- constituents whose own value is not a finite number
+# The sum of the statement has no licence to leave a term out.  A term that cannot be ignored unnoticed is one whose own value
+# is NaN or +-inf (a library author marks a datum as not available with `.nan`, the loader and the constructors accept it):
+# count x NaN makes the whole sum NaN, count x inf makes it inf (or NaN against an opposite inf).  Any "robust" summation
+# (nansum, nan_to_num, a finite-only filter, a masked array) then shows as a finite estimate.  The exact-rational model has
+# no such numbers (DESIGN 2.3), so this is an oracle on the implementation alone, in IEEE arithmetic.
+NF_NAMES = ['C(C)(H)3', 'C(C)2(H)2', 'C(C)3(H)', 'C(C)4', 'O(C)(H)', 'C(C)(H)2(O)', 'CO(C)(O)', 'O(CO)(H)']
+NF_GET = (('cp', 'get_CpoR'), ('h', 'get_HoRT'), ('s', 'get_SoR'), ('g', 'get_GoRT'))
+
+
+def nf_num(s):
+    return None if s is None else float(s)
+
+
+def nf_yaml_num(x):
+    return '.nan' if x != x else '.inf' if x == math.inf else '-.inf' if x == -math.inf else repr(float(x))
+
+
+def nf_library(ctx, spec):
+    """spec = {'via': 'ctor' | 'yaml', 'groups': [[name, href, sref, with_table], ...]} (numbers as strings: 'nan', 'inf', '1.5')
+    -> {name: correlation}, library"""
+    import os
+    GroupLibrary, Group, Descriptor, ThermochemGroup, Quantity, Error = L._imports()
+    table = {300.0: 2.0, 400.0: 3.0, 600.0: 3.5}
+    if spec['via'] == 'ctor':
+        contents = []
+        for nm, h, sr, tab in spec['groups']:
+            corr = ThermochemGroup(nf_num(h), nf_num(sr), dict(table) if tab else {}, 298.15, (200.0, 1000.0) if tab else None)
+            contents.append((nm, {L.SET: corr}))
+        lib = GroupLibrary(None, contents)
+    else:
+        ctx._nf_n = getattr(ctx, '_nf_n', 0) + 1
+        d = os.path.join(ctx.scratch, 'nf%05d' % ctx._nf_n)
+        os.makedirs(d)
+        with open(os.path.join(d, 'scheme.yaml'), 'w') as f:
+            f.write('patterns: []\n')
+        lines = ['groups:']
+        for nm, h, sr, tab in spec['groups']:
+            items = ['T_ref: 298.15 K']
+            if h is not None:
+                items.append('ND_H_ref: ' + nf_yaml_num(float(h)))
+            if sr is not None:
+                items.append('ND_S_ref: ' + nf_yaml_num(float(sr)))
+            if tab:
+                items.append('ND_Cp_data: [%s]' % ', '.join('[%r K, %r]' % (t, v) for t, v in table.items()))
+                items.append('range: [200 K, 1000 K]')
+            lines.append('  "%s": {thermochem: {%s}}' % (nm, ', '.join(items)))
+        with open(os.path.join(d, 'library.yaml'), 'w') as f:
+            f.write('\n'.join(lines) + '\n')
+        with L.quiet():
+            lib = GroupLibrary.Load(os.path.join(d, 'library.yaml'))
+    corr = dict((str(k), lib.contents[k][L.SET]) for k in lib.contents)
+    return corr, lib
+
+
+def nf_eval(fn):
+    import warnings
+    Error = L._imports()[5]
+    try:
+        with warnings.catch_warnings(), L.quiet():
+            warnings.simplefilter('ignore')
+            v = fn()
+    except Error.IncompleteDataError:
+        return ('err', 'incomplete')
+    except Exception as e:
+        return ('err', 'internal:' + type(e).__name__)
+    try:
+        return ('ok', float(v))
+    except Exception:
+        return ('err', 'internal:returned ' + type(v).__name__)
+
+
+def nf_same(got, exp, scale):
+    if got[0] != 'ok':
+        return False
+    g, e = got[1], exp
+    if e != e:
+        return g != g
+    if math.isinf(e):
+        return g == e
+    return math.isfinite(g) and common.close(g, e, scale)
+
+
+def nf_check(ctx, spec, mapping, T):
+    """one estimate over a library with non-finite data against the IEEE sum of count x own value, in mapping order"""
+    inp = {'nonfinite': spec, 'mapping': [[nm, L.enc_num(n)] for nm, n in mapping], 'T': L.enc_num(T)}
+    try:
+        corr, lib = nf_library(ctx, spec)
+    except Exception as e:
+        raise common.ImplFailure('a library with a reference value given as NaN / infinity ("not available") cannot be built', inp, e)
+    try:
+        est = lib.Estimate(dict(mapping), L.SET)
+    except Exception as e:
+        ctx.violation('Estimate fails although every descriptor has data', inp, expected='an estimate', observed=type(e).__name__)
+        return
+    exp = {}
+    for p, meth in NF_GET[:3]:
+        tot, sc, err = 0.0, 0.0, None
+        for nm, n in mapping:
+            own = nf_eval(lambda: getattr(corr[nm], meth)(T))
+            if own[0] != 'ok':
+                err = own[1]
+                break
+            tot += float(n) * own[1]
+            sc += abs(float(n) * own[1]) if math.isfinite(own[1]) else 0.0
+        exp[p] = (('err', err), 0.0) if err else (('ok', tot), sc)
+    (h, hs), (s_, ss) = exp['h'], exp['s']
+    exp['g'] = ((h if h[0] == 'err' else s_), 0.0) if (h[0] == 'err' or s_[0] == 'err') else (('ok', h[1] - s_[1]), hs + ss)
+    for p, meth in NF_GET:
+        got = nf_eval(lambda: getattr(est, meth)(T))
+        e, sc = exp[p]
+        kind = 'err' if e[0] == 'err' else 'nan' if e[1] != e[1] else 'inf' if math.isinf(e[1]) else 'finite'
+        ctx.count('nonfinite_expect_' + kind)
+        ctx.case(('nonfinite', spec['via'], len(mapping), p, kind), {'input': inp, 'property': p, 'outcome': str(got)} if len(ctx.samples) < 12 and kind == 'nan' and p == 's' else None)
+        if e[0] == 'err':
+            if got[0] != 'err' or (e[1] == 'incomplete' and got[1] != 'incomplete'):
+                ctx.violation('%s: a value is returned although a constituent has no such datum' % p, dict(inp, property=p), expected=e, observed=got)
+        elif not nf_same(got, e[1], sc):
+            what = ('%s of the estimate is a number although the sum of count times the constituents\' own values is not: a constituent '
+                    'whose own value is NaN or infinite was left out of the sum' % p) if kind != 'finite' and got[0] == 'ok' and math.isfinite(got[1]) \
+                else '%s of the estimate is not the count-weighted sum of the constituents\' values' % p
+            ctx.violation(what, dict(inp, property=p), expected=str(e[1]), observed=str(got[1]) if got[0] == 'ok' else got)
+
+
+def nonfinite_cases(ctx):
+    rng = ctx.rng
+    for i in range(ctx.n(30, 600)):
+        k = rng.randint(1, 6)
+        groups = []
+        for nm in rng.sample(NF_NAMES, k):
+            def val(special):
+                r = rng.random()
+                if r < special:
+                    return rng.choice(['nan', 'nan', 'inf', '-inf'])
+                if r < special + 0.08:
+                    return None
+                return repr(rng.choice([0.0, -8.5, 3.25, 12.0, -0.125, 40.5, 7.0]))
+            groups.append([nm, val(0.3), val(0.3), rng.random() < 0.3])
+        if not any(g[1] in ('nan', 'inf', '-inf') or g[2] in ('nan', 'inf', '-inf') for g in groups):
+            groups[0][rng.choice([1, 2])] = 'nan'
+        spec = {'via': 'yaml' if i % 3 == 0 else 'ctor', 'groups': groups}
+        special = [g[0] for g in groups if g[1] in ('nan', 'inf', '-inf') or g[2] in ('nan', 'inf', '-inf')]
+        for j in range(3):
+            names = list(dict.fromkeys([rng.choice(special)] + rng.sample([g[0] for g in groups], rng.randint(1, k))))
+            rng.shuffle(names)
+            # a zero count on a non-finite value is left out: whether 0 x NaN counts as a contribution is not the property's subject
+            mapping = [(nm, rng.choice([1, 2, 3, -1, 0.5, 2.25, -0.75, 6])) for nm in names]
+            ctx.count('nonfinite_cases')
+            nf_check(ctx, spec, mapping, rng.choice([298.15, 298.15, 300.0, 450.0]))
+
+
 # ---------------------------------------------------------------------- generators
 def one(ctx, batch, info, mapping, T, set_name=L.SET, full_lib=False, relational=False, decoys=()):
     c = L.run_case(info, mapping, T, set_name=set_name, full_lib=full_lib, decoys=decoys)
@@ -308,6 +460,7 @@ def run(ctx):
     fresh_library_case(ctx, batch)
     shipped_cases(ctx, batch)
     synthetic_cases(ctx, batch)
+    nonfinite_cases(ctx)
     replies = ctx.model([dict(c.request, op='c01.estimate') for c in batch])
     if replies is not None:
         for c, rep in zip(batch, replies):
@@ -320,13 +473,17 @@ def run(ctx):
             L.compare(ctx, c, rep, 'c01.estimate', parts=('nd',))
     L.floors(ctx, {'unit_vectors': 1500, 'corr_cases': 2000, 'model_missing': 100, 'model_emptyRange': 20, 'model_invalidSet': 9,
                    'exact_comparisons': 200, 'model_cp_incomplete': 200, 'model_h_incomplete': 50, 'count_fractional': 300,
-                   'count_negative': 300, 'count_zero': 200, 'size_16+': 40, 'relational': 60, 'fresh_library': 1, 'corpus': 1})
+                   'count_negative': 300, 'count_zero': 200, 'size_16+': 40, 'relational': 60, 'fresh_library': 1, 'corpus': 1,
+                   'nonfinite_cases': 80, 'nonfinite_expect_nan': 100, 'nonfinite_expect_inf': 30, 'nonfinite_expect_finite': 40})
 
 
 def replay(ctx, rec, batch=None):
     """re-run a recorded input on the implementation against the statement"""
     inp = rec.get('input', rec)
     before = len(ctx.violations)
+    if inp.get('nonfinite'):
+        nf_check(ctx, inp['nonfinite'], [(nm, L.dec_num(n)) for nm, n in inp['mapping']], L.dec_num(inp['T']))
+        return len(ctx.violations) == before
     info, mapping, T = L.rebuild(inp)
     c = L.run_case(info, mapping, T, set_name=inp.get('set', L.SET), full_lib=True)
     oracle(ctx, c, relational=True)
